@@ -5,6 +5,11 @@ import json, sys
 
 CLAIMED = {
  # id: (category, technique, text, note, design_ref)
+ "C01": ("model_checking",
+         "bounded-exhaustive operation-sequence exploration of the real collection against a map-based reference model (explicit-state search, depth-bounded)",
+         "For each of the 16 column kinds, every history up to depth d over insert/overwrite/merge/delete+reuse/multi-write/cross-block/late-column letters is run on the real code on every preset and capacity; after every step every live row is read through three reader paths and compared bit-for-bit with the model. Exhaustive within alphabet and depth, so a wrong width, missing presence bit, growth gap or interning mix-up reachable in d steps is found.",
+         "Trusted: Go toolchain, reference model (plain maps, harness/model). Values from per-kind extreme alphabets; depth-bounded; bulk filler rows value-checked on a sample of offsets.",
+         "DESIGN.md §8 C01"),
  "C05": ("model_checking",
          "bounded-exhaustive enumeration of operation sequences over the real commit codec, compared with the literal list written",
          "Every sequence up to length L over (operation kind x value width/length x offset move) is written to a real commit.Buffer and read back through every path (Seek/Next, per-block Range, Clone, Buffer/Commit codecs, Log) and after a merge-swap pass; exhaustive for the stated alphabet and bound, so any encode/decode asymmetry in the 1..5-byte delta, block header, isNext or swap logic that shows within L operations is found.",
